@@ -25,24 +25,9 @@ TOL_LIT = "(q 1 10000000)"
 TOL0 = 2.0 ** -60     # default solver tol (separates converged kold ~1e-27 from everything else)
 DAMPS = [0.0, 0.5, 3.0]
 
-# Genuine defects of the unchanged /repo (to be moved to known_findings.json by the integrator).
-PROPOSED_KNOWN = [
-    {"id": "K-cgls-setup-damp", "properties": ["C09", "C10"],
-     "trigger": "cgls / CGLS.setup with x0 given and non-zero and damp not in {0, 1}",
-     "what": "cgls with x0 != 0 and damp not in {0,1}: CGLS.setup forms r = Op^H s - damp*x with the UNSQUARED damp "
-             "(self.damp holds damp**2), so the iteration loses conjugacy, does not reach the minimiser of "
-             "||y-Op x||^2 + damp^2||x||^2 within n iterations and the functional may increase",
-     "patch": "cls_basic.py CGLS.setup: `r = self.Op.rmatvec(self.s) - damp * x` -> `- self.damp * x`"},
-    {"id": "K-cgls-r1norm", "properties": ["C10"],
-     "trigger": "every cgls call whose final normal-equation residual differs from its data residual",
-     "what": "cgls r1norm: CGLS.finalize returns self.kold (= ||Op^H s - damp^2 x||^2) as r1norm instead of ||y - Op x||",
-     "patch": "cls_basic.py CGLS.finalize: `self.r1norm = self.kold` -> `self.r1norm = self.cost[self.iiter]`"},
-    {"id": "K-cgls-cost1-setup", "properties": ["C10"],
-     "trigger": "cgls with x0 non-zero, damp not in {0,1} and zero iterations performed (niter=0 or kold<=tol at setup)",
-     "what": "cgls r2norm with 0 iterations, x0 != 0, damp not in {0,1}: CGLS.setup computes cost1[0] = sqrt(cost0^2 + damp*|x|^2) "
-             "with the UNSQUARED damp, so the returned r2norm is not sqrt(||y-Op x||^2 + damp^2||x||^2)",
-     "patch": "cls_basic.py CGLS.setup: `self.cost[0] ** 2 + damp * ...` -> `+ self.damp * ...`"},
-]
+# No known defects remain in scope: the three cgls defects found while building this check were repaired by
+# 4c3cad3 (setup uses damp**2 in r and cost1[0]) and a61e68b (r1norm = cost[iiter]); see known_findings.json "fixed".
+PROPOSED_KNOWN = []
 
 
 def own_coq_build():
@@ -171,10 +156,6 @@ def dense_solution(solver, A, H, y, x0, damp):
     return np.linalg.solve(A.conj().T @ A + damp ** 2 * np.eye(n), A.conj().T @ y)
 
 
-def k1_trigger(solver, x0, damp):
-    return solver == "cgls" and x0 is not None and bool(np.any(x0)) and damp not in (0.0, 1.0)
-
-
 def py_checks(case, out):
     """Property checks on the implementation alone: list of (kind, detail)."""
     A, y, x0, damp, solver = case["Aop"], case["y"], case["x0"], case["damp"], case["solver"]
@@ -294,13 +275,13 @@ def run_lit(c, o, F, cplx):
         "[" + "; ".join(vl(v) for _, v in o["begins"]) + "]", "[" + "; ".join(vl(v) for _, v, _ in o["ends"]) + "]"))
 
 
-def kase_lit(k, runs, outs, fixed=False):
+def kase_lit(k, runs, outs):
     """k: dict(kid, solver, cplx, Aop, y, x0, damp, nconv); runs: the runs sent to Coq."""
     cplx = k["cplx"]
     F = "GF" if cplx else "QcF"
-    return ("(Build_kase %s %d %d %d\n   %s\n   %s %s %s %d %s\n   [%s])" % (
+    return ("(Build_kase %s %d %d %d\n   %s\n   %s %s %s %d\n   [%s])" % (
         F, k["kid"], 0 if k["solver"] == "cg" else 1, k["Aop"].shape[1], common.mlit(k["Aop"], cplx), common.vlit(k["y"], cplx),
-        olit(k["x0"], cplx), common.qlit(k["damp"]), k["nconv"], "true" if fixed else "false",
+        olit(k["x0"], cplx), common.qlit(k["damp"]), k["nconv"],
         ";\n    ".join(run_lit(c, outs[c["id"]], F, cplx) for c in runs)))
 
 
@@ -385,33 +366,21 @@ def run_cases(cases):
     return outs
 
 
-MAXIT_K1 = 3   # in the trigger region of the known setup defect the exact model does not converge and its
-                # rationals explode: only runs with at most this many iterations are compared with the model
-
-
 def group_kases(cases, outs):
-    """Group the runs by system; decide which runs are sent to Coq."""
+    """Group the runs by system (one Coq kase per (system, solver, x0, damp)); every run is sent to Coq."""
     ks = {}
     for c in cases:
         if "error" in outs[c["id"]]:
             continue
         k = ks.setdefault(c["kid"], {"kid": c["kid"], "solver": c["solver"], "cplx": c["cplx"], "Aop": c["Aop"], "y": c["y"],
                                      "x0": c["x0"], "damp": c["damp"], "runs": []})
-        n = c["Aop"].shape[1]
-        k1 = k1_trigger(c["solver"], c["x0"], c["damp"])
-        k["k1"] = k1
-        k["nconv"] = n if (not k1 or n <= MAXIT_K1) else 0
-        if k1 and outs[c["id"]]["iiter"] > MAXIT_K1:
-            c["coq"] = False
-            continue
+        k["nconv"] = c["Aop"].shape[1]
         c["coq"] = True
-        if k1:
-            c["exec"] = False
         k["runs"].append(c)
     return [k for k in ks.values() if k["runs"]]
 
 
-def coq_eval(tag, cases, outs, fixed=False):
+def coq_eval(tag, cases, outs):
     """Write the kases as Gallina, evaluate, return {id: codes} (+ canary check)."""
     d = common.workdir(tag)
     files = {}
@@ -420,12 +389,12 @@ def coq_eval(tag, cases, outs, fixed=False):
         sub = [k for k in kases if k["cplx"] == cplx]
         for i, sh in enumerate(common.shard(sub, 3 if not cplx else 2)):
             name = "cases_%s_%d" % ("c" if cplx else "r", i)
-            files[name] = (cplx, [kase_lit(k, k["runs"], outs, fixed) for k in sh])
+            files[name] = (cplx, [kase_lit(k, k["runs"], outs) for k in sh])
     # canaries: a perturbed returned x / a perturbed cost entry must be reported
     can = {}
     for cplx in (False, True):
-        k = next((k for k in kases if k["cplx"] == cplx and not k["k1"] and any(outs[c["id"]]["iiter"] >= 2 for c in k["runs"])), None)
-        if k is None or fixed:
+        k = next((k for k in kases if k["cplx"] == cplx and any(outs[c["id"]]["iiter"] >= 2 for c in k["runs"])), None)
+        if k is None:
             continue
         src = next(c for c in k["runs"] if outs[c["id"]]["iiter"] >= 2)
         o1 = dict(outs[src["id"]])
@@ -480,25 +449,9 @@ def run(tier, pid="C09"):
         lres.append((bad, ncmp, info))
     t_py = time.time() - t0
     codes, t_coq, nfiles, kases = coq_eval(pid, cases, outs)
-    # second pass: kases in the trigger region of the known setup defect whose
-    # CORRESPONDENCE failed are re-checked against the repaired model (fixed = true)
-    bad_k = {c["kid"] for c in cases if c.get("coq") and k1_trigger(c["solver"], c["x0"], c["damp"])
-             and CORR_CODES & set(codes.get(c["id"], []))}
-    fixed_ok = set()
-    if bad_k:
-        redo = [c for c in cases if c["kid"] in bad_k]
-        codes2, t2, _, _ = coq_eval(pid + "fix", redo, outs, fixed=True)
-        t_coq += t2
-        for kid in bad_k:
-            rs = [c for c in redo if c["kid"] == kid and c.get("coq")]
-            if not any((CORR_CODES - {6}) & set(codes2.get(c["id"], [])) for c in rs):
-                fixed_ok.add(kid)
-                for c in rs:
-                    codes[c["id"]] = codes2.get(c["id"], [])
-                codes[kid] = codes2.get(kid, [])
-    kinfo = {k["kid"]: {"k1": k["k1"], "nconv": k["nconv"], "nruns": len(k["runs"])} for k in kases}
+    kinfo = {k["kid"]: {"nconv": k["nconv"], "nruns": len(k["runs"])} for k in kases}
     res = {"cases": cases, "outs": outs, "codes": codes, "lsq": lsq, "lres": lres, "t_python": t_py, "t_coq": t_coq,
-           "nfiles": nfiles, "fixed_ok": sorted(fixed_ok), "kinfo": kinfo}
+           "nfiles": nfiles, "kinfo": kinfo}
     try:
         pickle.dump(res, open(cf, "wb"))
     except Exception:
@@ -582,7 +535,7 @@ KINDS = {
 CODES = {"C09": {1, 4, 15}, "C10": {1, 2, 3, 5, 6, 7, 9, 10, 11, 12, 13, 14, 15}}
 CODE_KIND = {10: ("cost", "cost_length", "callback_count"), 11: ("r2norm",), 12: ("r1norm",), 14: ("monotone",)}
 CODE_TXT = {1: "iterates differ from the model's", 2: "cost history differs from the model's", 3: "iteration count differs from the model's run loop",
-            4: "the model does not reach the minimiser in n steps", 5: "r2norm differs from the model's", 6: "r1norm differs from the model's (kold)",
+            4: "the model does not reach the minimiser in n steps", 5: "r2norm differs from the model's", 6: "r1norm differs from the model's",
             7: "istop differs from the model's", 9: "functional increases along the model iterates", 10: "cost_k is not ||y-Op x_k|| (exact evaluation)",
             11: "r2norm is not truthful (exact evaluation)", 12: "r1norm is not truthful (exact evaluation)", 13: "Callbacks trace differs from the model's events",
             14: "functional increases along the implementation's iterates (exact evaluation)", 15: "malformed case"}
@@ -611,12 +564,7 @@ def report(pid, tier):
     res = run(tier, pid)
     cases, outs, codes, kinfo = res["cases"], res["outs"], res["codes"], res["kinfo"]
     kinds, ccodes = KINDS[pid], CODES[pid]
-    known = {k["id"]: k for k in PROPOSED_KNOWN}
-    for k in common.load_known():
-        if isinstance(k, dict) and k.get("id") in known:
-            known[k["id"]] = k
     nontriv, evals, corr_ok, corr_all = set(), 0, 0, 0
-    n_r1fixed = [0]
     dist = {}
     for c in cases:
         o = outs[c["id"]]
@@ -629,31 +577,19 @@ def report(pid, tier):
         if o["iiter"] >= 1 and np.any(o["x"]):
             nontriv.add((c["kid"], c["niter"], c["tol"]))
         cs = set(codes.get(c["id"], [])) if c.get("coq") else set()
-        k1 = k1_trigger(c["solver"], c["x0"], c["damp"])
         bad = py_checks(c, o) + trace_checks(c, o)
         found = set()
         for kind, detail in bad:
             if kind not in kinds:
                 continue
             found.add(kind)
-            if kind == "minimiser" and k1:
-                R.known_finding("K-cgls-setup-damp", known["K-cgls-setup-damp"]["what"])
-            elif kind == "monotone" and k1:
-                R.known_finding("K-cgls-setup-damp", known["K-cgls-setup-damp"]["what"])
-            elif kind == "r1norm" and c["solver"] == "cgls" and r1_is_kold(c, o):
-                R.known_finding("K-cgls-r1norm", known["K-cgls-r1norm"]["what"])
-            elif kind == "r2norm" and k1 and o["iiter"] == 0:
-                R.known_finding("K-cgls-cost1-setup", known["K-cgls-cost1-setup"]["what"])
-            else:
-                R.violation("%s: %s [%s]" % (kind, detail, describe(c)), replay_dict(c, kind, detail))
+            R.violation("%s: %s [%s]" % (kind, detail, describe(c)), replay_dict(c, kind, detail))
         if c.get("coq"):
             corr_all += 1
-            corr = (cs & CORR_CODES & ccodes) - ({6} if (6 in cs and 12 not in cs) else set())
-            if 6 in cs and 12 not in cs:
-                n_r1fixed[0] += 1
+            corr = cs & CORR_CODES & ccodes
             if not corr:
                 corr_ok += 1
-            elif not (found - {"r1norm"}):
+            elif not found:
                 R.violation("correspondence with the Coq model broken (%s) and no input violating the property itself was found [%s]"
                             % ("; ".join(CODE_TXT[k] for k in sorted(corr)), describe(c)),
                             dict(replay_dict(c, "correspondence", sorted(corr)), broken="Corr.CheckC09 codes %s" % sorted(corr)), no_input=True)
@@ -667,18 +603,14 @@ def report(pid, tier):
         if info["nconv"]:
             ncert += 1
         for code_ in sorted(cs & ccodes):
-            if info["k1"] and code_ in (4, 9):
-                R.known_finding("K-cgls-setup-damp", known["K-cgls-setup-damp"]["what"])
-            else:
-                c = next(c for c in cases if c["kid"] == kid)
-                R.violation("model-level check failed: %s [%s]" % (CODE_TXT[code_], describe(c)),
-                            dict(replay_dict(c, "model-code-%d" % code_, CODE_TXT[code_])), no_input=True)
-    if n_r1fixed[0]:
-        R.notes.append("%d runs: r1norm is truthful although the model (code as delivered) returns kold: K-cgls-r1norm appears repaired"
-                       % n_r1fixed[0])
-    if res["fixed_ok"]:
-        R.notes.append("%d systems in the trigger region of K-cgls-setup-damp agree with the REPAIRED model (fixed=true) instead of the model "
-                       "of the code as delivered: the defect appears repaired in this tree" % len(res["fixed_ok"]))
+            c = next(c for c in cases if c["kid"] == kid)
+            o = outs[c["id"]]
+            full = next((r for r in cases if r["kid"] == kid and r["niter"] >= r["Aop"].shape[1] and r["tol"] <= TOL0), c)
+            hit = [b for b in py_checks(full, outs[full["id"]]) if b[0] in ("minimiser", "monotone")]
+            if hit and hit[0][0] in kinds:
+                continue      # already reported above with a concrete input
+            R.violation("model-level check failed: %s [%s]" % (CODE_TXT[code_], describe(c)),
+                        dict(replay_dict(c, "model-code-%d" % code_, CODE_TXT[code_])), no_input=True)
     # LSQR against SciPy
     nl, ncmp = 0, 0
     for L, (bad, nc, info) in zip(res["lsq"], res["lres"]):
@@ -701,7 +633,6 @@ def report(pid, tier):
              "and one run stopped by a tolerance placed between exact kold values; non-trivial = distinct (system, x0, damp, niter, tol) "
              "with at least one iteration and a non-zero result",
         cg_cgls_runs=len(cases), runs_compared_in_coq=corr_all, systems_with_exact_convergence_certificate=ncert,
-        runs_python_only_known_defect_region=sum(1 for c in cases if c.get("coq") is False),
         lsqr_runs=nl, lsqr_scipy_comparisons=ncmp, distribution=dist, coq_files=res["nfiles"],
         modelled="CG, CGLS (setup/step/run/finalize/solve) in Gallina; LSQR is NOT modelled (oracle: scipy.sparse.linalg.lsqr)",
         t_python=round(res["t_python"], 1), t_coq=round(res["t_coq"], 1), proposed_known=[k["id"] for k in PROPOSED_KNOWN])
@@ -715,12 +646,3 @@ def report(pid, tier):
     if _cnt:
         R.notes.append("failures by kind (all occurrences, replay files capped at 6 per kind): %s" % sorted(_cnt.items()))
     return R.finish()
-
-
-def r1_is_kold(c, o):
-    """Is the returned r1norm the squared norm of the normal-equation residual (what CGLS.finalize returns)?"""
-    A, d2, x = c["Aop"], c["damp"] ** 2, o["x"]
-    if o["iiter"] == 0:
-        return True   # setup value (depends on the setup quirk); the Coq correspondence (code 6) covers it
-    k = float(np.linalg.norm(A.conj().T @ (c["y"] - A @ x) - d2 * x) ** 2)
-    return abs(o["r1"] - k) <= 1e-6 * (1 + k) + 1e-12
